@@ -2110,7 +2110,7 @@ impl World {
 
     /// the scale-out history of the thorough tier with one (or two) faults at fixed positions;
     /// `which` = index of the faulted round among the history's rounds; returns the call counts
-    fn scaleout_history(&mut self, limit: u64, plans: &BTreeMap<usize, RoundSpec>) -> Vec<usize> {
+    fn scaleout_history(&mut self, limit: u64, plans: &BTreeMap<usize, RoundSpec>, long: bool) -> Vec<usize> {
         self.new_case(limit, 1, false);
         self.s.stats.count("gen.class.enumerated-scale-out");
         self.setup(7, 2, None);
@@ -2131,9 +2131,11 @@ impl World {
         self.finish_some(&mut rng, true);
         do_round(self, "mig");
         do_round(self, "sync");
-        self.finish_some(&mut rng, true);
-        do_round(self, "mig");
-        do_round(self, "sync");
+        if long {
+            self.finish_some(&mut rng, true);
+            do_round(self, "mig");
+            do_round(self, "sync");
+        }
         self.suffix();
         counts
     }
@@ -2179,37 +2181,46 @@ fn nested_at(kind: &str, k: usize, inner: RoundSpec) -> RoundSpec {
 
 fn thorough(w: &mut World, rng: &mut Rng) {
     // every single fault and every crash point of the 2-chunk -> 3-chunk scale-out history
-    let base = w.scaleout_history(2, &BTreeMap::new());
+    let base = w.scaleout_history(2, &BTreeMap::new(), true);
     let kinds = ["sync", "sync", "mig", "sync", "mig", "sync"];
     for (ri, n) in base.iter().enumerate() {
         if ri == 0 {
             continue;
         }
+        let long = ri >= 4;
         for k in 0..(*n + 1) {
-            for f in [Fault::DropReq, Fault::DropRep, Fault::Dup, Fault::Delay(0), Fault::Delay(3), Fault::Delay(25), Fault::Crash] {
+            if long && k % 3 != 0 {
+                continue;
+            }
+            let faults: Vec<Fault> = if long {
+                vec![Fault::DropRep, Fault::Crash]
+            } else {
+                vec![Fault::DropReq, Fault::DropRep, Fault::Dup, Fault::Delay(3), Fault::Crash]
+            };
+            for f in faults {
                 let mut plans = BTreeMap::new();
                 plans.insert(ri, single(kinds[ri], k, f));
-                w.scaleout_history(2, &plans);
+                w.scaleout_history(2, &plans, long);
             }
-            if k % 3 == 0 {
+            if !long && k % 4 == 0 {
                 let mut plans = BTreeMap::new();
                 let inner = World::ff(if kinds[ri] == "sync" { "mig" } else { "sync" });
                 plans.insert(ri, nested_at(kinds[ri], k, RoundSpec { reporter: "c2".into(), ..inner }));
-                w.scaleout_history(2, &plans);
+                w.scaleout_history(2, &plans, false);
             }
         }
     }
     // sampled pairs of faults (two rounds, or the same round)
-    for _ in 0..300 {
+    for _ in 0..150 {
         let mut plans = BTreeMap::new();
         for _ in 0..2 {
-            let ri = rng.range(1, 5) as usize;
+            let ri = rng.range(1, 3) as usize;
             let k = rng.below(base[ri] as u64 + 1) as usize;
             let e = plans.entry(ri).or_insert_with(|| World::ff(kinds[ri]));
             e.faults.insert(k, gen_fault(rng));
         }
         let limit = *rng.pick(&[1u64, 2, 3]);
-        w.scaleout_history(limit, &plans);
+        w.scaleout_history(limit, &plans, rng.chance(1, 4));
     }
     // every single fault of the detect / failover rounds of a failover history
     let base = w.failover_history(&BTreeMap::new());
@@ -2226,7 +2237,7 @@ fn thorough(w: &mut World, rng: &mut Rng) {
             }
         }
     }
-    for _ in 0..400 {
+    for _ in 0..300 {
         w.random_case(rng);
     }
 }
